@@ -983,6 +983,23 @@ theorem sameFileDefset_spec (h : Post c0 c) :
     · cases hid
   · exact Holds.pure ⟨rfl, by intro _ hl; cases hl⟩
 
+
+theorem defDefset_spec (h : Post c0 c) :
+    Holds defDefset c (fun x c' => c = c' ∧ ∀ id, x = some id →
+      id < c.symbolMap.defsetList.size ∧ c.fileTrace.head? = some (c.symbolMap.defset id).defineLoc.file) := by
+  unfold defDefset
+  refine Holds.bind (sameFileDefset_spec h) ?_
+  rintro ds c' ⟨hcc, hds⟩
+  subst hcc
+  refine Holds.bind currentMulticlassId_spec ?_
+  rintro mc c' ⟨hcc, _⟩
+  subst hcc
+  refine Holds.pure ⟨rfl, ?_⟩
+  intro id hid
+  split at hid
+  · cases hid
+  · exact hds id hid
+
 theorem indexClass_spec (hr : RecOK r k) (h : Post c0 c) (hcf : clsFree c0) (hn : Fits (k + 1) c0 n) :
     Holds (indexClass r n) c (fun _ c' => Post c0 c') := by
   unfold indexClass
@@ -1109,7 +1126,7 @@ theorem indexDef_spec (hr : RecOK r k) (h : Post c0 c) (hcf : clsFree c0) (hn : 
       refine hrest defId (h1.trans h2.toPost) hid (by rw [hreq]) ?_
       rw [hreq, h2.ext.trace]; exact hf
   unfold indexDef
-  refine Holds.bind (sameFileDefset_spec h) ?_
+  refine Holds.bind (defDefset_spec h) ?_
   rintro dsid c' ⟨hcc, hdsid⟩
   subst hcc
   cases dsid with
